@@ -17,6 +17,7 @@ Rewrites (one site at a time, applied to the source text):
   MERGEIF  nested ifs without else merged with `and`;  SWAPINDEP adjacent constant stores to different fields of self exchanged
   FSTR     'a{}b'.format(x) -> f'a{x}b'
   GUARD    `if c: BODY` as last statement of a loop body / function -> `if not c: continue / return` followed by BODY
+  METHRENAME a private method renamed consistently in its module
   CONSTX   a literal of the body named by a new module-level constant
   EXTRACT  one statement moved into a new private method of the class (extract method), read locals passed as arguments
   ALIAS    an attribute path used at least twice (`self.machine.events`) bound to a new local at the top of the function
@@ -434,7 +435,14 @@ def run(props, repo, kinds=None, funcs=None, jobs=16):
         if top:
             ln = min([top[0].lineno] + [d.lineno for d in getattr(top[0], "decorator_list", [])])
             top_start = offs[ln - 1]
-        for t in twins_in(f.node, b, offs, top_start):
+        extra = []
+        nm = f.node.name
+        if nm.startswith("_") and not nm.startswith("__"):
+            import re as _re
+            occ = [(m_.start(), m_.end(), nm + "_renamed") for m_ in _re.finditer(rb"(?<![A-Za-z0-9_])" + _re.escape(nm.encode()) + rb"(?![A-Za-z0-9_])", b)]
+            if occ and not _re.search(rb"(?<![A-Za-z0-9_])" + _re.escape((nm + "_renamed").encode()) + rb"(?![A-Za-z0-9_])", b):
+                extra.append(("METHRENAME", occ, None, None, f.node.lineno, "rename private method %s everywhere in the module" % nm))
+        for t in twins_in(f.node, b, offs, top_start) + extra:
             if kinds and t[0] not in kinds:
                 continue
             items.append((rel, t, ident))
